@@ -1049,7 +1049,9 @@ class PolyhedralTermList(TermList):  # noqa: WPS338
             # 4 : Numerical difficulties encountered.
             res = linprog(c=objective, A_ub=a_opt, b_ub=b_opt, bounds=(None, None))  # ,options={'tol':0.000001})
             b_temp[i] -= 1
-            if res["status"] == 3 or (res["status"] == 0 and -res["fun"] <= b_temp[i]):  # noqa: WPS309
+            # the tested row, relaxed by 1, is itself among the constraints: the LP is bounded, and a solver status
+            # other than "optimal" says nothing about redundancy
+            if res["status"] == 0 and -res["fun"] <= b_temp[i]:  # noqa: WPS309
                 logging.debug("Can remove")
                 a_temp = np.delete(a_temp, i, 0)
                 b_temp = np.delete(b_temp, i)
@@ -1122,7 +1124,8 @@ class PolyhedralTermList(TermList):  # noqa: WPS338
 
             res = linprog(c=objective, A_ub=a_opt, b_ub=b_opt, bounds=(None, None))  # ,options={'tol':0.000001})
             b_temp -= 1
-            if res["status"] == 2:
+            if res["status"] != 0:
+                # no optimum to compare with (infeasible, or the solver gave up): containment is not established
                 is_refinement = False
                 break
             else:
